@@ -150,7 +150,8 @@ def gen_scen(rng, prim=None):
         extra = rng.choice(["start", "join", "join0", "dtor", "dtor"])
         if extra == "start":
             at = [i for i, o in enumerate(main) if o in (f"start-{j}", f"mstart-{j}")][0]
-            main.insert(at + 1, f"start-{j}")
+            other = rng.randrange(1, k + 1)
+            main.insert(at + 1, f"xstart-{8 * j + other}" if rng.random() < 0.5 else f"start-{j}")
         elif extra == "join":
             main.append(f"join-{j}")
         elif extra == "dtor":                      # ~Thread instead of join: joins a thread that is still attached
@@ -170,6 +171,8 @@ def gen_scen(rng, prim=None):
     nsec = min(max(nsec, 0), NSEC - 1)
     init = {"sem": rng.choice([0, 0, 1, 2]), "sig": rng.choice([0, 0, 1])}.get(prim, 0)
     cfail = rng.choice([0, 0, 0, 1, 2]) if prim == "thr" else rng.choice([0] * 9 + [1])
+    if any(o.startswith("xstart-") for o in main):
+        cfail = 0                                   # xstart is only defined on an attached object
     return Scen(prim, init, rng.choice([0, 5, 1700000000]), nsec, quantum, rng.choice([0, 1, 1, 2]), rng.choice([0, 1, 2]), progs, cfail)
 
 
@@ -218,6 +221,8 @@ class Call:
 
 def split_op(o):
     name, arg = (o.split("-")[0], int(o.split("-")[1])) if "-" in o else (o, None)
+    if name == "xstart":                    # second start() on object arg // 8 (with the body of another program)
+        return "start", arg // 8
     return ("start" if name == "mstart" else name), arg
 
 
@@ -661,6 +666,8 @@ FIXED_SCENARIOS = [
     "scen thr 0 0 0 1 0 0 T:0:join-1,start-1,start-1,join-1,join-1 T:4294967295:",
     "scen thr 0 0 0 1 0 0 T:7:mstart-1,mstart-1,join-1,join-1 T:2147483648:mstart-2,join-2 T:3:",
     "scen thr 0 0 0 1 0 0 F:1 T:7:start-1,start-2,dtor-1,join-2,join-1,dtor-2 T:5: T:6:",
+    # a second start() with another body on an object that already runs a thread must fail and change nothing
+    "scen thr 0 0 0 1 0 0 T:7:mstart-1,xstart-10,start-2,xstart-17,join-1,join-2 T:11: T:22:",
     "scen sig 0 5 0 1 0 0 F:1 T:0:start-1,start-2,wait,dtor-1,dtor-2 T:1:set T:2:set",
     "scen sig 0 5 0 1 1 0 T:0:start-1,wait,destroy,join-1 T:1:set",
 ] + [
